@@ -636,6 +636,27 @@ func validateV2CurrencyOverflow(ms *MidState, txn types.V2Transaction) error {
 	if overflow {
 		return errors.New("transaction outputs exceed inputs") // technically true
 	}
+
+	// NOTE: the tax of every contract created by the transaction is added to
+	// the siafund pool; below the ephemeral output height, inputs are not
+	// bounded by the total supply, so this sum must be checked explicitly
+	pool := ms.siafundTaxRevenue
+	addTax := func(fc types.V2FileContract) {
+		if !overflow {
+			pool, overflow = pool.AddWithOverflow(ms.base.V2FileContractTax(fc))
+		}
+	}
+	for _, fc := range txn.FileContracts {
+		addTax(fc)
+	}
+	for _, fcr := range txn.FileContractResolutions {
+		if r, ok := fcr.Resolution.(*types.V2FileContractRenewal); ok {
+			addTax(r.NewContract)
+		}
+	}
+	if overflow {
+		return errors.New("transaction overflows the siafund pool")
+	}
 	return nil
 }
 
